@@ -6,6 +6,9 @@ from ..scope import graphs
 
 FORMAT_SPECS = ('h', 'A', 'a', 'm', '!s', '!x', '!z', '!b', 'hm')
 
+SPARSE_A = [8, 100, 111, 156, 196, 1033, 517, 2048, 77, 4000, 263, 3001, 64, 129, 1025, 999, 32, 4095, 650, 1290, 2600, 515, 3333, 41]
+SPARSE_B = [4095, 7, 1024, 512, 33, 65, 2049, 300, 17, 1000, 131, 259, 3000, 96, 1500, 2222, 640, 9, 72, 4001, 1111, 555, 2750, 48]
+
 META = {
     'technique': 'bounded exhaustive enumeration of reactions built from small molecules by <=2 ground-truth edits x role shapes x role-internal orders x consistent renumberings on the real reaction/CGR code',
     'rule': 'one state per (reactant set, edit set, role shape, order/renumbering); the oracle is the recorded edit list',
@@ -252,7 +255,9 @@ def run_cases(shard):
                             continue
                         nums = sorted(set(n for m in rs + ps + gs for n in m))
                         perms = graphs.gen_perms(nums)
-                        for pm in perms[:: max(1, len(perms) // 6)]:
+                        # sparse numbers as well (sets of such numbers do not iterate in ascending order)
+                        sparse = [dict(zip(nums, SPARSE_A)), dict(zip(nums, SPARSE_B))]
+                        for pm in perms[:: max(1, len(perms) // 6)] + sparse:
                             acc.transitions += 1
                             tmp = {n: 10000 + n for n in nums}
                             r3 = ReactionContainer([_remap(_remap(m, tmp), {10000 + a: b for a, b in pm.items()}) for m in rs],
